@@ -16,6 +16,7 @@ EXPLANATION = (
     "horizontal kernels with the column-major copy and vertical kernels with the row-strided / vector copy; (R2) the vertical and horizontal dispatchers "
     "cover the same element kinds. Not decided: stride arithmetic inside copy_into_row_major; the variadic (NArgs) kernels' loop-carried offset is "
     "reported as unrecognised (evidence only)."
+    " (R5) in the variadic concatenation arms the running offset advances by the block's extent along the concatenation dimension (shape()[1] in horzcat, shape()[0] in vertcat)."
 )
 
 
